@@ -58,3 +58,74 @@ from step 2 wrote report steps 3,4,5,6; a run restarted from B at step 4 would t
 example : cutIndex 0 4 [0, 1, 1, 0, 1, 1] = 5 ∧ cutIndex 2 4 [0, 1, 1, 0, 1, 1] = 2 := by decide
 
 end OpmVerif.ExtESmry
+
+namespace OpmVerif.ExtESmry
+
+theorem scanCount_spec : ∀ (rstep : List Int) (c0 target : Int), c0 < target →
+    target - c0 ≤ (ones rstep : Int) →
+    1 ≤ scanCount c0 target rstep ∧ scanCount c0 target rstep ≤ rstep.length ∧
+      rstep[scanCount c0 target rstep - 1]? = some 1 ∧
+      (ones (rstep.take (scanCount c0 target rstep)) : Int) = target - c0 := by
+  intro rstep
+  induction rstep with
+  | nil => intro c0 target h1 h2; simp [ones] at h2; omega
+  | cons v vs ih =>
+    intro c0 target h1 h2
+    by_cases hv : v = 1
+    · subst hv
+      by_cases hc : c0 + 1 ≥ target
+      · simp [scanCount, hc, ones]; omega
+      · have h2' : target - (c0 + 1) ≤ (ones vs : Int) := by simp [ones] at h2; omega
+        obtain ⟨a, b, c, d⟩ := ih (c0 + 1) target (by omega) h2'
+        simp only [scanCount, if_true, hc, if_false]
+        refine ⟨by omega, by simp; omega, ?_, ?_⟩
+        · have : 1 + scanCount (c0 + 1) target vs - 1 = (scanCount (c0 + 1) target vs - 1) + 1 := by omega
+          rw [this, List.getElem?_cons_succ]; exact c
+        · rw [Nat.add_comm 1 (scanCount _ _ _), List.take_succ_cons]
+          simp only [ones, if_true]; omega
+    · have hc : ¬ (c0 ≥ target) := by omega
+      have h2' : target - c0 ≤ (ones vs : Int) := by simp [ones, hv] at h2; omega
+      obtain ⟨a, b, c, d⟩ := ih c0 target h1 h2'
+      simp only [scanCount, hv, if_false, hc]
+      refine ⟨by omega, by simp; omega, ?_, ?_⟩
+      · have : 1 + scanCount c0 target vs - 1 = (scanCount c0 target vs - 1) + 1 := by omega
+        rw [this, List.getElem?_cons_succ]; exact c
+      · rw [Nat.add_comm 1 (scanCount _ _ _), List.take_succ_cons]
+        simp only [ones, hv, if_false]; omega
+
+theorem esmry_counts_from_restart_step : Gen.ESmrySeek.chainCounterStartsAtRestartStep = true := by decide
+
+/-- **base part of a restart chain, SMSPEC reader**: the time steps `ESmry` takes from a base
+run (itself restarted from report step `own`, 0 if it is not a restart) for a run restarted
+from it at report step `rstNum` end with the step completing report step `rstNum` and hold
+exactly `rstNum - own` completed report steps. -/
+theorem esmry_base_part (own rstNum : Int) (rstep : List Int) (h1 : own < rstNum)
+    (h2 : rstNum - own ≤ (ones rstep : Int)) :
+    let n := scanCount (esmryCountStart own) rstNum rstep
+    1 ≤ n ∧ n ≤ rstep.length ∧ rstep[n - 1]? = some 1 ∧ (ones (rstep.take n) : Int) = rstNum - own := by
+  have hs : esmryCountStart own = own := by simp [esmryCountStart, esmry_counts_from_restart_step]
+  simp only [hs]
+  exact scanCount_spec rstep own rstNum h1 h2
+
+/-- both readers take the same part of a base run. -/
+theorem readers_agree_on_base_part (own rstNum : Int) (rstep : List Int) (h1 : own < rstNum)
+    (h2 : rstNum - own ≤ (ones rstep : Int)) :
+    scanCount own rstNum rstep = cutIndex own rstNum rstep + 1 := by
+  induction rstep generalizing own with
+  | nil => simp [ones] at h2; omega
+  | cons v vs ih =>
+    by_cases hv : v = 1
+    · subst hv
+      by_cases hc : own + 1 = rstNum
+      · simp [scanCount, cutIndex, hc]
+      · have hge : ¬ (own + 1 ≥ rstNum) := by omega
+        have h2' : rstNum - (own + 1) ≤ (ones vs : Int) := by simp [ones] at h2; omega
+        simp only [scanCount, cutIndex, if_true, hc, hge, if_false]
+        rw [ih (own + 1) (by omega) h2']; omega
+    · have hge : ¬ (own ≥ rstNum) := by omega
+      have hne : ¬ (own = rstNum) := by omega
+      have h2' : rstNum - own ≤ (ones vs : Int) := by simp [ones, hv] at h2; omega
+      simp only [scanCount, cutIndex, hv, if_false, hge, hne]
+      rw [ih own h1 h2']; omega
+
+end OpmVerif.ExtESmry
